@@ -61,12 +61,14 @@ def check(ctx):
         table = L.keccak_table(hb)
         vmo = L.vm(ctx, hb, keys)
         ano = L.analyze(ctx, hb, keys)
+        ok, hashes, diag = vlib.run_harness_sharded(hb, ["key-hashes"], [gen.vm_line(c, L.DEFAULT_CFG) for c in keys])
+        ctx.oblige("harness:key-hashes", "search", ok, diag)
         import re
         terms = []
-        for v, a in zip(vmo, ano):
+        for v, a, hs in zip(vmo, ano, hashes):
             consts = set(int(x) for x in re.findall(r"T_KnownData \[(\d+)\]", v))
             pre = ";".join("(%d,%d)" % (c, table[c]) for c in sorted(consts) if c in table)
-            terms.append(L.hexify("mk_c056case (%s) (%s) [%s] []" % (v, a, pre)))
+            terms.append(L.hexify("mk_c056case (%s) (%s) [%s] %s" % (v, a, pre, hs if hs.startswith("[") else "[]")))
         bad = vlib.run_cases(ctx, "attribution", L.HEADER, terms, per_shard=max(1, len(terms) // 32 + 1), fn="c05_code")
         for idx, code in bad:
             c = keys[idx]
